@@ -33,6 +33,45 @@ INCL = Y + 'scan_endpoint::INCLUSIVE'
 _FN_MEMO = {}
 
 
+def cursor_fields(facts):
+    """Roles of the fields of the cursor's resume state, found by type in the record layouts (not by name):
+    stack_element {key_tuple key; base_node* layer_root; border_node* bn; int compare_to_end; <iterate state> bi},
+    iterate state {node_version64_body v_prev; permutation perm_prev; size_t perm_rank}."""
+    if '_c10_fields' in facts.__dict__:
+        return facts.__dict__['_c10_fields']
+    se = None
+    for k, v in facts.records.items():
+        if k.startswith(Y + 'iscan_context::'):
+            tys = [x['type'] for x in v.get('fields', [])]
+            if Y + 'border_node *' in tys and Y + 'base_node *' in tys:
+                se = v
+    if se is None:
+        raise AnalysisBroken('cursor stack element record (a border_node* and a base_node* field) not found')
+    roles = {}
+
+    def one(rec, ty, role):
+        c = [x['name'] for x in rec.get('fields', []) if x['type'] == ty]
+        if len(c) != 1:
+            raise AnalysisBroken('cursor resume state: no unique field of type %s' % ty)
+        roles[role] = c[0]
+    one(se, Y + 'border_node *', 'bn')
+    one(se, Y + 'base_node *', 'layer_root')
+    one(se, Y + 'base_node::key_tuple', 'key')
+    one(se, 'int', 'compare_to_end')
+    bi = [x for x in se.get('fields', []) if x['type'].startswith(Y + 'iscan_context::')]
+    if len(bi) != 1:
+        raise AnalysisBroken('cursor stack element: iterate-state field not found')
+    roles['bi'] = bi[0]['name']
+    br = facts.records.get(bi[0]['type'])
+    if br is None:
+        raise AnalysisBroken('cursor iterate-state record not found')
+    one(br, Y + 'node_version64_body', 'v_prev')
+    one(br, Y + 'permutation', 'perm_prev')
+    one(br, 'unsigned long', 'perm_rank')
+    facts.__dict__['_c10_fields'] = roles
+    return roles
+
+
 def findnext_reader(S):
     facts = S.facts()
     if '_c10_findnext' not in facts.__dict__:
@@ -43,12 +82,13 @@ def findnext_reader(S):
 def _findnext_reader(S):
     facts = S.facts()
     f = facts.one(Y + 'iscan_findnext')
+    cf = cursor_fields(facts)
     bn = [v['id'] for n in f.all_nodes() if n['k'] == 'DeclStmt' for v in n['vars']
           if v['type'] == 'yakushima::border_node *' and 'init' in v and
-          any(x['k'] == 'MemberExpr' and x.get('name') == 'bn' for x in f.walk(v['init']))]
+          any(x['k'] == 'MemberExpr' and x.get('name') == cf['bn'] for x in f.walk(v['init']))]
     vfb = [v['id'] for n in f.all_nodes() if n['k'] == 'DeclStmt' for v in n['vars']
            if v['type'] == 'yakushima::node_version64_body' and 'init' in v and
-           any(x['k'] == 'MemberExpr' and x.get('name') == 'v_prev' for x in f.walk(v['init']))]
+           any(x['k'] == 'MemberExpr' and x.get('name') == cf['v_prev'] for x in f.walk(v['init']))]
     if len(bn) != 1 or len(vfb) != 1:
         raise AnalysisBroken('iscan_findnext: cursor locals (border, validated version) not found')
     rr = scanocc.RangeReader(S, f, Y + 'iscan_check_retry', bn[0], vfb[0], 'iscan')
@@ -375,6 +415,7 @@ def rule_res(S):
                     'perm_rank, v_prev and perm_prev')
     f = facts.one(Y + 'iscan_findnext')
     sites = {}
+    rolename = {v: k for k, v in cursor_fields(facts).items()}
 
     def top_field(nd):
         """field name if nd writes a field of ctx->stack_top()"""
@@ -393,14 +434,21 @@ def rule_res(S):
                 names.append(r['name'])
                 r = f.strip(f.ch(r)[0], casts=True)
             if r is not None and (is_call(r, cq=Y + 'iscan_context::stack_top') or
-                                  (r['k'] == 'DeclRefExpr' and r.get('name') == 'st')):
-                return names[0]
+                                  (r['k'] == 'DeclRefExpr' and 'stack_element' in (r.get('ty') or ''))):
+                return rolename.get(names[0], names[0])
         return None
+
+    f_, rr_ = findnext_reader(S)
+    bnvar = rr_.bn if hasattr(rr_, 'bn') else None
 
     def step(ctx, nd, st):
         fld = top_field(nd)
         if fld:
             return st | {fld}
+        if nd['k'] == 'BinaryOperator' and nd.get('op') == '=' and bnvar is not None:
+            l = f.strip(f.ch(nd)[0], casts=True)
+            if l is not None and l['k'] == 'DeclRefExpr' and l.get('id') == bnvar:
+                return st | {'#handover'}   # bn = <neighbour>: the next goto is the hand-over edge
         if is_call(nd, cq=Y + 'iscan_check_retry'):
             return frozenset()
         if is_call(nd, cq=Y + 'iscan_context::stack'):
@@ -423,13 +471,14 @@ def rule_res(S):
         return st
 
     def branch(ctx, blk, idx, st):
-        if blk.term and blk.term.get('k') == 'GotoStmt' and blk.term.get('label') == 'from_neighbor':
+        if blk.term and blk.term.get('k') == 'GotoStmt' and '#handover' in st:
             e = sites.setdefault('neighbour hand-over', {'ok': True, 'loc': short_loc(blk.term), 'path': None, 'miss': ''})
             miss = {'bn', 'perm_rank', 'v_prev', 'perm_prev'} - st
             if miss:
                 e['ok'] = False
                 e['miss'] = ', '.join(sorted(miss))
                 e['path'] = ctx.witness()
+            return st - {'#handover'}
         return st
 
     Explorer(f, step, branch).run(frozenset())
@@ -750,9 +799,10 @@ def rule_back(S):
                      'would otherwise be skipped by a right-to-left cursor); a split after the snapshot is caught by '
                      'the version check of the next visit')
     f = facts.one(Y + 'iscan_findnext')
+    bnf = cursor_fields(facts)['bn']
     bn = [v['id'] for n in f.all_nodes() if n['k'] == 'DeclStmt' for v in n['vars']
           if v['type'] == 'yakushima::border_node *' and 'init' in v and
-          any(x['k'] == 'MemberExpr' and x.get('name') == 'bn' for x in f.walk(v['init']))]
+          any(x['k'] == 'MemberExpr' and x.get('name') == bnf for x in f.walk(v['init']))]
     if len(bn) != 1:
         raise AnalysisBroken('R-BACK: the border variable of iscan_findnext was not found')
     bn = bn[0]
